@@ -62,7 +62,7 @@ def judge(ctx, mine_coding=(), mine_repair=(), mine_vt=False):
         cases = []
         for r in recs:
             if r["rec"] == "repair" and r["out"] == "ok":
-                heap = 0 if r["heap"] >= 10 ** 6 else r["heap"]
+                heap = -1 if r["heap"] >= 10 ** 6 else r["heap"]
                 o = {k: r[k] for k in ("out", "cands", "det", "flag", "count", "visited")}
                 o["ticks"], o["shape"] = 0, True
                 cases.append(rf.case_of(r["g"], {"start": r["start"], "dna": r["dna"], "vt": r["vt"], "indel": r["indel"], "heap": heap}, o, w=[], es=[]))
